@@ -140,7 +140,11 @@ def run(facts, R):
         fs = ["%s is %s" % (render_n(f["expr"]), f["val"]) for f in facts_at(nr, ns, facts, i)]
         nm = t["callee"]["name"]
         if t["callee"]["decl"] == "server::Middleware::handle":
-            ok = "split_first(arg1.middlewares) as Some).0.0" in a[0] and a[1] == "arg2" and "middlewares: " in a[2] and "as Some).0.1" in a[2] and "handler: arg1.handler" in a[2] and "ctx: arg1.ctx" in a[2]
+            nx = ns.op(t["args"][2])
+            d = {k: render_n(v) for k, v in nx[3]} if nx[0] == "agg" else {}
+            ok = a[0].endswith("split_first(arg1.middlewares) as Some).0.0") and a[1] == "arg2" and \
+                d.get("middlewares", "").endswith("split_first(arg1.middlewares) as Some).0.1") and d.get("middlewares", "").startswith("(") and \
+                d.get("handler") == "arg1.handler" and d.get("ctx") == "arg1.ctx"
             R.check(ok, "pipeline-forwards", nr.path, "first.handle(req, Next{rest, handler, ctx})", "middleware call args %s" % a, t.get("span"), "rest of the chain forwarded")
         else:
             ok = a[0] == "arg1.handler" and a[1] == "arg2" and any("split_first(arg1.middlewares) is None" in x for x in fs)
@@ -303,7 +307,7 @@ def prefix_table(facts, R, fn, pfx):
                     okc = is_call(cv, "starts_with") and render(cv[2][1]) in ("'/'", "47")
             if is_call(inner, "strip_prefix") and okc:
                 res = ("and", "S", "B")
-        elif v[0] == "call" and v[1].endswith("starts_with") and "'/'" in rv:
+        elif v[0] == "call" and v[1].endswith("starts_with") and (rv.endswith("'/')") or rv.endswith(", 47)")):
             res = ("lit", "B")
         if res is None:
             bad.append("unrecognised result %s" % rv[:100])
